@@ -147,6 +147,7 @@ type sessionRegistry struct {
 	entries    map[[sessionIDLen]byte]*sessionEntry
 	draining   bool
 	reaperStop chan struct{}
+	stopOnce   sync.Once
 	reaperOnce sync.Once
 	reaperWg   sync.WaitGroup
 	reaperTick time.Duration
@@ -303,13 +304,8 @@ func (r *sessionRegistry) ensureReaper() {
 // Called by Shutdown so the reaper goroutine exits cleanly when an
 // operator has finished their grace period.
 func (r *sessionRegistry) stopReaper() {
-	select {
-	case <-r.reaperStop:
-		// Already stopped.
-		return
-	default:
-	}
-	close(r.reaperStop)
+	// Concurrent Shutdown calls must not both reach the close.
+	r.stopOnce.Do(func() { close(r.reaperStop) })
 	r.reaperWg.Wait()
 }
 
